@@ -1,5 +1,57 @@
 import XmpProofs.LinFlow
-/-! # C18 — the reported duration is exact for modules with linear flow (property theorems) -/
+/-!
+# C18 — the reported duration is exact for modules with linear flow
+
+Model: `XmpModel/LinFlow.lean` — `Scan` (`scanRows`, `scanOrders`, `scanModule`,
+`scanSequences`: src/scan.c) and `Play` (`PlayEnv.render/advance/nextRow/…`,
+the per-tick machine of `xmp_play_frame`: src/player.c, src/effects.c), two
+independent interpreters of the vocabulary {speed, tempo, pattern delay, jump}.
+Time is exact (unit `1/L` ms, `L = lcm(1..255)`).
+
+## Full statements (goal)
+
+```
+C18_scan_eq_play : ∀ (m : LinMod), WF m → ∀ k < (scanSequences m).seqs.length,
+  let sc := scanSequences m; let r := (sc.seqs.getD k default).res; let e := sc.env m k
+  ∃ n, ∀ fuel ≥ n,
+    rowTrace (e.run fuel) = r.trace.map posOf                      -- same rows, same order
+  ∧ ticks (e.run fuel) = r.durX                                     -- Σ frame_time = duration before truncation
+  ∧ (∀ first entries of an order o: Σ frame_time before = (sc.info.getD o {}).timeX)
+  ∧ the frame after the last one has loop_count = 1                 -- C18_loop_count
+C18_scan_terminates : ∀ m ep chain ctl info, m.rst < m.len → ep < m.len →
+  (scanModule m ep chain ctl info).fuelOut = false
+```
+
+## What is proved here
+
+* `C18_tick_exact` — the time unit is exact for every tempo 1..255.
+* `C18_row_accounting` — the scan's bookkeeping (`row_count`, `frame_count`, `time` with its
+  flushes at speed / tempo changes) advances the exact row start time, for **every** effect of
+  the vocabulary, by `speed' · (1 + delay)` ticks at the tempo in force after the effect.
+* `C18_play_row` — the per-tick player spends exactly that many frames in the row, all in the
+  same row, the first one with `frame = 0`, their `frame_time` sums to the same amount, and
+  then calls `next_row`.
+* `C18_scan_eq_play_partial` — **simulation inside a pattern**: on any jump-free stretch of
+  fresh rows (not containing the last row of the pattern nor the scan's end point) the scan's
+  row loop and the player, started in agreement (same speed, tempo, exact time), produce the
+  same row trace, end in agreement, and the player's Σ frame_time equals the advance of the
+  scan's exact clock.  (`scanRows` on `fxs ++ rest` continues with `rest`.)
+* `C18_loop_count_partial` — `check_end_of_module` increments the loop counter exactly when the
+  row entered is the scan's end point and the visit budget `end_point` (initialised with the
+  scan's visit count `num`, one less per entry) is exhausted; frames that do not start a row
+  never change it.
+
+## What is missing for the full statements
+
+The composition across *orders*: `next_order` (skip of invalid orders / markers, wrap with
+restart / entry-point logic, `sequence_control` lookups) against the scan's `while (42)` head
+(`restartOrd`, foreign-order break, `scan_cnt[ord][0]` break), the jump row (`pbreak`/`jump`
+vs `ord2`), the identification of the scan's end point with the first re-entered row (needs the
+invariant `scan_cnt = multiplicity in trace`), and the fuel measure
+`(#orders with unvisited row 0)·514 + (514 − orders_since_last_valid)` for `C18_scan_terminates`.
+These parts are covered on every run by the correspondence only (the driver also evaluates
+`rowTrace (Play.run) = Scan trace` and `fuelOut = false` on every generated module).
+-/
 namespace Xmp.LinFlow
 
 /-- One tick at tempo `bpm ∈ 1..255` lasts exactly `2500/bpm` ms: `tick bpm * bpm = 2500 * L`. -/
@@ -9,5 +61,119 @@ theorem C18_tick_exact (b : Nat) (h1 : 1 ≤ b) (h2 : b ≤ 255) : tick b * b = 
   have : (2500 * L) % b = 0 := by
     rw [Nat.mul_mod, h]; simp
   exact Nat.div_mul_cancel (Nat.dvd_of_mod_eq_zero this)
+
+example : tick 125 * 125 = 2500 * L := C18_tick_exact 125 (by decide) (by decide)
+
+/-- **Accounting identity** (scan.c:362-378, 472-493, 496-530, 601-603, 635-637 against
+player.c:2087/2134): for every effect of the vocabulary the scan's clock advances by the
+player's time in the row. -/
+theorem C18_row_accounting (fx : Fx) (st : ScanSt) (hw : fx.WF) :
+    (scanStep fx st).rowStart = st.rowStart + rowFrames fx st.speed * tick (fxBpm fx st.bpm) ∧
+    (scanStep fx st).speed = fxSpeed fx st.speed ∧ (scanStep fx st).bpm = fxBpm fx st.bpm :=
+  ⟨scanStep_rowStart fx st hw, scanStep_speed fx st, scanStep_bpm fx st hw⟩
+
+/-- non-trivial instance: a tempo change after three rows at speed 6 with a pending frame count -/
+example : let st : ScanSt := { speed := 6, bpm := 125, rowCount := 3, frameCount := 12, time := 7, cnt := [], ctl := [], info := [] }
+    (scanStep (.tempo 150) st).rowStart = st.rowStart + 6 * tick 150 := by
+  intro st
+  have := (C18_row_accounting (.tempo 150) st (by simp [Fx.WF])).1
+  simpa [rowFrames, fxSpeed, fxBpm, Fx.delayOf] using this
+
+/-- The player in one row (any non-jump effect): exactly `speed'·(1+delay)` frames, one row
+entry, Σ frame_time as accounted by the scan, then `next_row`. -/
+theorem C18_play_row (e : PlayEnv) (p : PlaySt) (fx : Fx) (hfx : e.fxAt p.ord p.row = fx)
+    (hj : fx.isJump = false) (hw : fx.WF) (hfr : p.frame = 0) (hd : p.delay = 0) (hl : p.loopCount = 0)
+    (hs : 1 ≤ p.speed)
+    (hne : ¬ (p.ord = e.si.endOrd ∧ p.row = e.si.endRow ∧ p.endPoint = 0)) :
+    ∃ F, F.length = rowFrames fx p.speed ∧ rowTrace F = [(p.ord, p.row)] ∧
+      ticks F = rowFrames fx p.speed * tick (fxBpm fx p.bpm) ∧
+      e.runN (rowFrames fx p.speed) p = (e.nextRow (rowEnd e p fx)).map fun p' => (F, p') :=
+  runN_row e p fx hfx hj hw hfr hd hl hs hne
+
+/-- **Simulation inside a pattern.**  `fxs` is a jump-free stretch of rows of the pattern at
+order `ord` starting at `row`, followed by at least one more row (`rest`).  The scan state `st`
+has not visited these rows; the player state `p` stands at the first frame of `(ord,row)`
+before its new-row work.  If they agree on speed, tempo and exact time then
+* the scan's row loop runs through `fxs` and continues with `rest`,
+* the player renders frames `F` without incrementing the loop counter,
+* both have the same row trace, `Σ frame_time = ` advance of the scan's clock,
+* and they agree again at `(ord, row + fxs.length)`. -/
+theorem C18_scan_eq_play_partial (e : PlayEnv) (ord row : Nat) (fxs rest : List Fx) (st : ScanSt) (p : PlaySt)
+    (hrows : (e.m.rowsOf (e.m.patOf ord)).drop row = fxs ++ rest) (hrest : rest ≠ [])
+    (hfx : ∀ fx ∈ fxs, fx.isJump = false ∧ fx.WF)
+    -- scan side: rows not visited yet, tempo sane, scan_cnt allocated
+    (hfresh : ∀ r, row ≤ r → cntAt st.cnt ord r = 0) (hbpm : 20 ≤ st.bpm)
+    (hlen : ord < st.cnt.length) (hrl : row + fxs.length ≤ (st.cnt.getD ord []).length)
+    -- the scan's end point is not inside the stretch
+    (hend : ord = e.si.endOrd → ∀ r, row ≤ r → r < row + fxs.length → r ≠ e.si.endRow)
+    -- player side: first frame of (ord,row)
+    (ho : p.ord = ord) (hr : p.row = row) (hf : p.frame = 0) (hd : p.delay = 0) (hp : p.pbreak = false)
+    (hl : p.loopCount = 0) (hs : 1 ≤ p.speed)
+    -- agreement
+    (hsp : p.speed = st.speed) (hbp : p.bpm = st.bpm) (ht : p.time = st.rowStart) :
+    ∃ st' F p',
+      scanRows ord (fxs ++ rest) row st = scanRows ord rest (row + fxs.length) st' ∧
+      e.runN F.length p = some (F, p') ∧
+      st'.trace.map posOf = (rowTrace F).reverse ++ st.trace.map posOf ∧
+      ticks F = st'.rowStart - st.rowStart ∧
+      p'.ord = ord ∧ p'.row = row + fxs.length ∧ p'.frame = 0 ∧ p'.loopCount = 0 ∧
+      p'.speed = st'.speed ∧ p'.bpm = st'.bpm ∧ p'.time = st'.rowStart ∧ p'.endPoint = p.endPoint := by
+  obtain ⟨st', hs1, hd1⟩ := scanRows_nojump_app ord rest fxs row st hfx hfresh hbpm hlen hrl
+  obtain ⟨F, p', hrun, htr, htk, h1, h2, h3, _, _, h6, h7, h8, h9, h10⟩ :=
+    runN_rows e ord fxs rest row p hrows hrest hfx hend ho hr hf hd hp hl hs
+  refine ⟨st', F, p', hs1, hrun, ?_, ?_, h1, h2, h3, h6, ?_, ?_, ?_, h10⟩
+  · rw [hd1.trace, htr]
+  · rw [htk, hd1.rowStart, hsp, hbp]; omega
+  · rw [h7, hd1.speed, hsp]
+  · rw [h8, hd1.bpm, hbp]
+  · rw [h9, hd1.rowStart, hsp, hbp, ht]
+
+/-! non-trivial instance of the hypotheses: pattern `[speed 3, delay 2, tempo 150, –]` at order 0 of a
+one-order module, scan and player at its first row with speed 6 / tempo 125; the stretch is the
+first three rows (3 + 9 + 3 frames). -/
+def exM : LinMod := { xxo := [0], pats := [[.speed 3, .delay 2, .tempo 150, .none]], rst := 0, spd := 6, bpm := 125, marker := false }
+def exE : PlayEnv := { m := exM, si := { seq := 0, ep := 0, endOrd := 0, endRow := 3, num := 1 }, ctl := [], info := [] }
+def exSt : ScanSt := { speed := 6, bpm := 125, cnt := [[0, 0, 0, 0]], ctl := [], info := [] }
+def exP : PlaySt := { ord := 0, row := 0, frame := 0, speed := 6, bpm := 125, endPoint := 1 }
+
+theorem exFresh : ∀ r, 0 ≤ r → cntAt exSt.cnt 0 r = 0 := by
+  intro r _
+  match r with
+  | 0 | 1 | 2 | 3 => rfl
+  | r + 4 => rfl
+
+example := C18_scan_eq_play_partial exE 0 0 [.speed 3, .delay 2, .tempo 150] [Fx.none] exSt exP rfl (by simp)
+  (by intro fx h; simp at h; rcases h with h | h | h <;> subst h <;> simp [Fx.isJump, Fx.WF])
+  exFresh (by simp [exSt]) (by simp [exSt]) (by show 0 + 3 ≤ 4; omega)
+  (by intro _ r _ h; simp at h; show r ≠ 3; omega)
+  rfl rfl rfl rfl rfl rfl (by simp [exP]) rfl rfl (by simp [exP, exSt, ScanSt.rowStart])
+
+/-- `check_end_of_module`: the loop counter increments exactly at the scan's end point once the
+visit budget is used up; otherwise entering the end point costs one unit of the budget. -/
+theorem C18_loop_count_partial (e : PlayEnv) (s : PlaySt) :
+    ((e.checkEnd s).loopCount = s.loopCount + 1 ↔
+      (s.ord = e.si.endOrd ∧ s.row = e.si.endRow ∧ s.endPoint = 0)) ∧
+    (¬ (s.ord = e.si.endOrd ∧ s.row = e.si.endRow ∧ s.endPoint = 0) →
+      (e.checkEnd s).loopCount = s.loopCount ∧
+      (e.checkEnd s).endPoint = endAfter e s.ord s.row s.endPoint) ∧
+    (s.frame ≠ 0 → (e.render s).loopCount = s.loopCount) := by
+  refine ⟨?_, ?_, ?_⟩
+  · simp only [PlayEnv.checkEnd]
+    by_cases h1 : s.ord = e.si.endOrd ∧ s.row = e.si.endRow
+    · by_cases h2 : s.endPoint = 0
+      · simp [h1, h2]
+      · simp [h1, h2]
+    · simp only [h1, if_false]
+      constructor
+      · intro h; omega
+      · intro h; exact absurd ⟨h.1, h.2.1⟩ h1
+  · intro h
+    simp only [PlayEnv.checkEnd, endAfter]
+    by_cases h1 : s.ord = e.si.endOrd ∧ s.row = e.si.endRow
+    · have : ¬ s.endPoint = 0 := fun h2 => h ⟨h1.1, h1.2, h2⟩
+      simp [h1, this]
+    · simp [h1]
+  · intro h
+    simp [PlayEnv.render, h]
 
 end Xmp.LinFlow
